@@ -1,5 +1,6 @@
 //! One entry point per property.
 
+pub mod c04;
 pub mod c06;
 pub mod c10;
 pub mod c12;
@@ -40,7 +41,7 @@ pub fn report_as(running: &str, class: Class) -> String {
     let ps = props_of(class);
     // composite properties: their statement covers everything their check compares
     // (HTTP == store operation; import target == source; content; isolation)
-    if ["C06", "C10", "C12", "C13", "C20"].contains(&running) && !matches!(class, Class::Panic) {
+    if ["C04", "C06", "C10", "C12", "C13", "C20"].contains(&running) && !matches!(class, Class::Panic) {
         return running.to_string();
     }
     if ps.contains(&running) {
